@@ -1407,7 +1407,7 @@ func checkWaitGroups(w *World, r *Report, pfx string) {
 		}
 		for _, d := range dones {
 			if !lcDoneOnce(w, d) {
-				bad = "Done at " + w.instrPos(d.Instr) + " is not executed exactly once on every terminating path of its goroutine"
+				bad = "Done at " + w.instrPos(d.Instr) + " is not executed exactly once on every terminating path of its goroutine, or is not the last thing it does"
 			}
 		}
 		if len(adds) == 0 || len(dones) == 0 || len(waits) == 0 {
@@ -1548,6 +1548,28 @@ func lcDoneOnce(w *World, d *commOp) bool {
 		for _, ev := range p.Events {
 			if ev.In == d.Instr {
 				c++
+				continue
+			}
+			if c == 0 {
+				continue
+			}
+			// a plain (not deferred) Done is the last thing its goroutine does: whoever waits takes
+			// the goroutine's work for finished (the final frame written, the state published)
+			switch x := ev.In.(type) {
+			case *ssa.Send, *ssa.Select, *ssa.Go, *ssa.MapUpdate:
+				good = false
+			case *ssa.Store:
+				if _, local := x.Addr.(*ssa.Alloc); !local {
+					good = false
+				}
+			case *ssa.Call:
+				if _, isBuiltin := x.Call.Value.(*ssa.Builtin); !isBuiltin || isBuiltinCall(&x.Call, "close") {
+					good = false
+				}
+			case *ssa.UnOp:
+				if x.Op == token.ARROW {
+					good = false
+				}
 			}
 		}
 		if c != 1 {
